@@ -400,7 +400,10 @@ def optimum_milp(per, costs, cover=False):
             b += 1
     A = csc_matrix((np.ones(len(rows)), (rows, cols)), shape=(nunits, len(tc)))
     cons = LinearConstraint(A, lb=np.ones(nunits), ub=(np.full(nunits, np.inf) if cover else np.ones(nunits)))
-    tc_scale = max(tc) if tc and max(tc) > 0 else 1.0      # the solver's tolerances are absolute: costs are normalised
+    # the solver's tolerances are absolute: costs are expressed in units of delta_empty (= the cost of any tuple holding a
+    # single unit), so that its 1e-6 absolute gap stays far below the 2e-5 relative band of the checks
+    singles = [c for c, m in zip(tc, tm) if m & (m - 1) == 0 and m]
+    tc_scale = singles[0] if singles and singles[0] > 0 else 1.0
     tc = [x / tc_scale for x in tc]
     res = milp(c=np.array(tc), constraints=[cons], integrality=np.ones(len(tc)), bounds=Bounds(0, 1),
                options={"mip_rel_gap": 0.0, "presolve": True, "time_limit": MILP_TIME_LIMIT})
